@@ -1,8 +1,10 @@
 package main
 
 import (
+	"fmt"
 	"go/token"
 	"go/types"
+	"os"
 	"strings"
 
 	"golang.org/x/tools/go/ssa"
@@ -81,6 +83,9 @@ func (nn *nonNil) Value(v ssa.Value, b *ssa.BasicBlock, depth int) bool {
 		if isLibCall(&x.Call, "errors", "", "New") || isLibCall(&x.Call, "fmt", "", "Errorf") || isLibCall(&x.Call, "strings", "", "NewReader") {
 			return true
 		}
+		if isLibCall(&x.Call, "net/url", "URL", "ResolveReference") || isLibCall(&x.Call, "net/url", "URL", "JoinPath") {
+			return true // documented to return a fresh URL
+		}
 	case *ssa.TypeAssert:
 		// single-result assertion to a pointer type: panics unless it holds;
 		// by the module-wide invariant (C11.R1) interfaces never hold nil item pointers
@@ -114,11 +119,34 @@ func (nn *nonNil) Value(v ssa.Value, b *ssa.BasicBlock, depth int) bool {
 					if e := resultValue(call, n-1); e != nil && knownNil(e, b) && nn.producerSound(sc, x.Index) {
 						return true
 					}
+					// (value, found bool, error): non-nil whenever the error is nil and found is true
+					if e := resultValue(call, n-1); e != nil && knownNil(e, b) {
+						for j := 0; j < n-1; j++ {
+							if j == x.Index || !types.Identical(sc.Signature.Results().At(j).Type(), types.Typ[types.Bool]) {
+								continue
+							}
+							flag := resultValue(call, j)
+							if flag == nil {
+								continue
+							}
+							if hasBoolFact(factsOf(b.Parent()).At(b), func(c ssa.Value) bool { return c == flag }, true) && nn.producerSoundFlag(sc, x.Index, j) {
+								return true
+							}
+						}
+					}
 				}
 			}
-			if isLibCall(&call.Call, "net/url", "", "Parse") && x.Index == 0 {
+			if (isLibCall(&call.Call, "net/url", "", "Parse") || isLibCall(&call.Call, "net/url", "URL", "Parse") || isLibCall(&call.Call, "net/url", "", "ParseRequestURI")) && x.Index == 0 {
 				if e := resultValue(call, 1); e != nil && knownNil(e, b) {
 					return true // url.Parse returns a non-nil URL with a nil error
+				}
+			}
+			// the source reported with a successfully fetched document is the URL
+			// that was requested, which was dereferenced on the way (C02.R4
+			// success-source, C02.R5 return): non-nil whenever the error is nil
+			if sc := call.Call.StaticCallee(); sc != nil && x.Index == 1 && (sc.String() == "servitor/jtp.Get" || sc.String() == "servitor/client.FetchURL") {
+				if e := resultValue(call, 2); e != nil && knownNil(e, b) {
+					return true
 				}
 			}
 		}
@@ -214,6 +242,9 @@ func (nn *nonNil) paramNonNil(p *ssa.Parameter) bool {
 			args = append([]ssa.Value{cc.Value}, cc.Args...)
 		}
 		if idx >= len(args) || !nn.Value(args[idx], e.Site.Block(), 1) {
+			if os.Getenv("SERVCHECK_DEBUG_NONNIL") != "" {
+				fmt.Fprintf(os.Stderr, "paramNonNil %s.%s: not proven at %s (%v)\n", fn, p.Name(), nn.P.InstrPos(e.Site), args[idx])
+			}
 			ok = false
 			break
 		}
@@ -383,6 +414,30 @@ func (nn *nonNil) pairSound(f, ef *types.Var) bool {
 		nn.memo[key] = -1
 	}
 	return ok
+}
+
+// producerSoundFlag: every return of fn whose error may be nil and whose bool
+// result #flag may be true returns a non-nil value at index idx.
+func (nn *nonNil) producerSoundFlag(fn *ssa.Function, idx, flag int) bool {
+	if len(fn.Blocks) == 0 {
+		return false
+	}
+	for _, b := range fn.Blocks {
+		ret, isRet := b.Instrs[len(b.Instrs)-1].(*ssa.Return)
+		if !isRet {
+			continue
+		}
+		if provablyNonNilErr(ret.Results[len(ret.Results)-1], b, 0) {
+			continue
+		}
+		if k, ok := ret.Results[flag].(*ssa.Const); ok && k.Value != nil && k.Value.ExactString() == "false" {
+			continue
+		}
+		if !nn.Value(ret.Results[idx], b, 1) {
+			return false
+		}
+	}
+	return true
 }
 
 // producerSound: every return of fn whose error result may be nil returns a
